@@ -295,11 +295,11 @@ func stackSig(st string) string {
 	var out []string
 	for _, ln := range strings.Split(st, "\n") {
 		ln = strings.TrimSpace(ln)
-		if strings.HasPrefix(ln, "github.com/xelaj/mtproto/") && !strings.Contains(ln, "/zverif/") {
+		if (strings.HasPrefix(ln, "github.com/xelaj/mtproto/") || strings.HasPrefix(ln, "github.com/xelaj/mtproto.")) && !strings.Contains(ln, "/zverif/") {
 			if i := strings.Index(ln, "("); i > 0 {
 				ln = ln[:i]
 			}
-			ln = strings.TrimPrefix(ln, "github.com/xelaj/mtproto/")
+			ln = strings.TrimPrefix(strings.TrimPrefix(ln, "github.com/xelaj/mtproto/"), "github.com/xelaj/mtproto.")
 			if len(out) > 0 && out[len(out)-1] == ln {
 				continue
 			}
@@ -385,7 +385,7 @@ func (r *run) ingest(w wlSpec, logp string, shard int) bool {
 	return finished
 }
 
-var reRaceFrame = regexp.MustCompile(`^\s+(github\.com/xelaj/mtproto/[^\s(]+)\(`)
+var reRaceFrame = regexp.MustCompile(`^\s+(github\.com/xelaj/mtproto[/.][^\s(]+)\(`)
 
 // ingestRaces parses race-detector logs: counts reports, de-duplicates by the pair of first /repo frames.
 func (r *run) ingestRaces(base string) {
@@ -407,7 +407,7 @@ func (r *run) ingestRaces(base string) {
 				}
 				for _, ln := range strings.Split(st, "\n") {
 					if m := reRaceFrame.FindStringSubmatch(ln); m != nil && !strings.Contains(m[1], "/zverif/") {
-						firsts = append(firsts, strings.TrimPrefix(m[1], "github.com/xelaj/mtproto/"))
+						firsts = append(firsts, strings.TrimPrefix(strings.TrimPrefix(m[1], "github.com/xelaj/mtproto/"), "github.com/xelaj/mtproto."))
 						break
 					}
 				}
